@@ -60,7 +60,9 @@ Other(side) == IF side = "d" THEN "l" ELSE "d"
 \* identity payload an endpoint sends
 PayloadOf(sc, side) ==
   LET me == IdOf(sc, side)  s == StaticOf(sc, side)
-      victim == IF side = "d" THEN "B" ELSE "A" IN     \* the honest identity the rogue would like to be
+      victim == IF side = "d" THEN "B" ELSE "A"        \* the honest identity the rogue would like to be
+      hid == IF side = "d" THEN "A" ELSE "B"           \* H: the honest peer that normally plays this role ...
+      hstatic == IF side = "d" THEN Key("sA") ELSE Key("sB") IN   \* ... and the static key it reuses
   IF Kind(sc, side) = "honest" THEN Payload(Id(me), Sig(me, <<"prefix", s>>), FALSE)
   ELSE CASE sc.pv = "asR"                -> Payload(Id("R"), Sig("R", <<"prefix", s>>), FALSE)
          [] sc.pv = "noKey"              -> Payload([t |-> "nokey"], Sig("R", <<"prefix", s>>), FALSE)
@@ -72,6 +74,10 @@ PayloadOf(sc, side) ==
          [] sc.pv = "unknownType"        -> Payload([t |-> "unknowntype"], Sig("R", <<"prefix", s>>), FALSE)
          [] sc.pv = "garbageSig"         -> Payload(Id("R"), [t |-> "garbage"], FALSE)
          [] sc.pv = "extraField"         -> Payload(Id("R"), Sig("R", <<"prefix", s>>), TRUE)
+         \* the exact payload the honest peer H of this role (static key sA / sB, reused by H in every
+         \* session) sends, observed earlier and replayed inside the rogue's own session
+         [] sc.pv = "replayH"            -> Payload(Id(hid), Sig(hid, <<"prefix", hstatic>>), FALSE)
+         [] sc.pv = "replayHBadSig"      -> Payload(Id(hid), [t |-> "garbage"], FALSE)
          [] sc.pv = "weakKey"            -> Payload(Id("W"), Sig("W", <<"prefix", s>>), FALSE)
          [] sc.pv = "noncanonKey"        -> Payload([Id("R") EXCEPT !.canon = FALSE], Sig("R", <<"prefix", s>>), FALSE)
 
@@ -131,7 +137,11 @@ Read3(sc, ep, m) ==
 
 \* parse_and_verify_peer_id + the dialed-peer comparison of negotiate_connection.
 \* The peer id is derived from the decoded, verified key (canonical), whatever bytes encoded it.
-Verify(sc, side, ep) ==
+\* `memo` is whatever the process remembers of earlier handshakes; the code keeps nothing and the
+\* verdict is a function of this handshake's transcript only (it is a parameter so that the
+\* self-test can plug in a negative model: a cache of verified (peer id, signature) pairs).
+MemoAfter(memo, ep) == memo
+Verify(sc, side, ep, memo) ==
   LET p == ep.pl IN
   IF p.t # "payload" THEN Fail(ep)
   ELSE IF p.key.t # "id" THEN Fail(ep)                                   \* PeerIdMissing / unknown key type
@@ -169,6 +179,10 @@ MustErr(sc, role) ==
   \* the dialed peer id differs from the proven one: another key, or another multihash form
   \/ role = "dialer" /\ sc.dialed # "none" /\ (sc.dialed # PeerIdentity(sc, role) \/ sc.dialedForm # "inline")
 
+\* History independence: the outcomes permitted for a handshake depend on the scenario of that
+\* handshake alone -- not on which peers, payloads or signatures the same process has verified,
+\* accepted or rejected before (`Allowed` has no history argument; the model checker runs short
+\* sequences of handshakes against the same process state and checks every one of them).
 \* outcomes C01 permits: [o |-> "ok", peer |-> P] or [o |-> "err"]
 Allowed(sc, role) ==
   LET okp == [o |-> "ok", peer |-> PeerIdentity(sc, role)]  err == [o |-> "err", peer |-> ""] IN
